@@ -4,6 +4,7 @@ import (
 	"fmt"
 	"strings"
 
+	"github.com/reactivego/ivg/decode"
 	"verif/gen"
 	"verif/mc"
 	"verif/rec"
@@ -89,6 +90,16 @@ func c03Check(w *mc.W, st *c03State, b []byte, unit string) {
 		if i := firstDiff(st.rd.Calls, p.Calls); i >= 0 {
 			w.Fail("calls-differ:"+methodAt(p.Calls, i)+"/"+methodAt(st.rd.Calls, i),
 				fmt.Sprintf("input %s: call %d is %s, specification says %s", hexShort(b), i, callAt(st.rd.Calls, i), callAt(p.Calls, i)), mkBytesCase(b, unit))
+		}
+	}
+	// the metadata-only entry point reads the same grammar (metadata units): it accepts exactly
+	// the strings whose magic and metadata section are well formed
+	if strings.HasPrefix(unit, "meta/") {
+		var verr error
+		if pnc, _ := guard(func() { _, verr = decode.DecodeViewBox(b) }); pnc != nil {
+			w.Fail("panic:DecodeViewBox", fmt.Sprintf("DecodeViewBox panicked on %s: %v", hexShort(b), pnc), mkBytesCase(b, unit))
+		} else if (verr == nil) != p.MetaOK {
+			w.Fail(fmt.Sprintf("accept-mismatch:DecodeViewBox-accepts=%v", verr == nil), fmt.Sprintf("DecodeViewBox(%s) err=%v, the metadata section is well formed: %v (%s)", hexShort(b), verr, p.MetaOK, p.Reason), mkBytesCase(b, unit))
 		}
 	}
 	h := mc.NewHasher()
